@@ -64,7 +64,7 @@ MUTANTS = [
     # ---- C12 / C13 / C14
     ('eager-flatchoice-normalize', DT, "        return FlatChoice(\n            self._when_broken,\n            self._when_flat,\n            normalize_on_access=True\n        )", "        return FlatChoice(\n            normalize_doc(self._when_broken),\n            normalize_doc(self._when_flat),\n            normalize_on_access=False\n        )", ['C12']),
     ('end-visit-skipped-for-dicts', PP, "    ctx.end_visit(value)\n\n    return doc", "    if not isinstance(value, dict):\n        ctx.end_visit(value)\n\n    return doc", ['C13']),
-    ('visited-shared-across-calls', PP, "            visited=set(),\n            max_seq_len=max_seq_len,", "            visited=_SHARED_VISITED,\n            max_seq_len=max_seq_len,", ['C13']),
+    ('visited-shared-across-calls', PP, "            visited=set(),\n            max_seq_len=max_seq_len,", "            visited=_SHARED_VISITED,\n            max_seq_len=max_seq_len,", ['C14']),
     ('except-valueerror-only', PP, "            doc = pretty_fn(value, ctx)\n        except Exception as e:\n            _warn_about_bad_printer(pretty_fn, value, exc=e)\n            doc = repr(value)\n\n    if not (", "            doc = pretty_fn(value, ctx)\n        except (ValueError, TypeError) as e:\n            _warn_about_bad_printer(pretty_fn, value, exc=e)\n            doc = repr(value)\n\n    if not (", ['C14']),
     ('fallback-str-not-repr', PP, "            _warn_about_bad_printer(pretty_fn, value, exc=e)\n            doc = repr(value)\n\n    if not (", "            _warn_about_bad_printer(pretty_fn, value, exc=e)\n            doc = str(value)\n\n    if not (", ['C14']),
     # ---- C15 / C18
